@@ -281,3 +281,37 @@ def run(prog, chk):
     if memrules.run_counters(prog, r5) < 1:
         raise Broken("no run counter found in parser.c (expected delim_count of scan_triple_delim_string)")
 
+    r6 = chk.rule("R6-bracket-arms-agree", "in scan_unquoted the arms for opening and for closing brackets decide `this is not a "
+                  "data_/save_ header, the bracket ends the value` with the same condition: both kinds of bracket end an unquoted "
+                  "value in the same circumstances", primary=False, floor=1)
+    su_fn = prog.fn("scan_unquoted")
+
+    def arm_condition(label_macro):
+        for b in su_fn.blocks.values():
+            if b.label and b.label.get("k") == "case" and label_macro in (b.label.get("ms") or []):
+                cur, hops = b, 0
+                while cur is not None and hops < 4:
+                    t = cur.term
+                    if t and t.get("k") == "IfStmt" and isinstance(t.get("full"), dict):
+                        return t["full"], b
+                    nxt = [x for x in cur.succs if x is not None]
+                    # follow the short-circuit chain: the successor that holds the next operand / the if itself
+                    cur = su_fn.blocks[max(nxt)] if nxt else None
+                    hops += 1
+        return None, None
+    from ..facts import show as _show, walk
+    oc, ob = arm_condition("OPEN_META")
+    cc, cb = arm_condition("CLOSE_META")
+    if oc is None or cc is None:
+        raise Broken("scan_unquoted: the OPEN_META / CLOSE_META arms were not found")
+    def vars_of(e):
+        return {x.get("name") for x in walk(e) if x.get("k") == "ref" and x.get("dk") in ("local", "parm", "slocal")}
+    # the same decision: it depends on the same variables (an equivalent rewriting of one arm keeps them)
+    if vars_of(oc) == vars_of(cc):
+        r6.ok("scan_unquoted:OPEN_META/CLOSE_META", "both decide from %s" % ", ".join(sorted(vars_of(oc))))
+    else:
+        r6.violation(su_fn.file, su_fn.name, cb.label.get("l"), "bracket-arms-differ",
+                     "the OPEN_META arm ends the value under `%s`, the CLOSE_META arm under `%s`: a word that is a prefix of data_ / "
+                     "save_ directly before a closing bracket is scanned differently from one before an opening bracket (the "
+                     "bracket is swallowed into the value)" % (_show(oc)[:60], _show(cc)[:60]))
+
